@@ -1,0 +1,31 @@
+//! C38: a user identity with a harness-chosen session id and last-verification time.
+//!
+//! `check_oauth2_authorisation` takes an `Identity`; the only public constructor
+//! (`from_impersonate_entry_readwrite`) fixes the session id and leaves the verification
+//! time empty, so the max_age / prompt=login branch and the session binding of consent
+//! tokens could not be reached from outside. This builds the identity exactly as
+//! `process_uat_to_identity` does after it has validated a user auth token.
+//! (The hooks that open issued codes / consent tokens live at the end of `idm/oauth2.rs`,
+//! because the token structures are private to that module.)
+
+use crate::be::Limits;
+use crate::prelude::*;
+use crate::server::identity::{AccessScope, IdentUser, Source};
+use std::sync::Arc;
+
+pub use crate::idm::oauth2::VerifC38Grant;
+
+pub fn ident_user(
+    entry: Arc<EntrySealedCommitted>,
+    session_id: Uuid,
+    last_verified_at: Option<Duration>,
+) -> Identity {
+    Identity::new(
+        IdentType::User(IdentUser { entry }),
+        Source::Internal,
+        session_id,
+        AccessScope::ReadWrite,
+        Limits::default(),
+        last_verified_at.map(|d| time::OffsetDateTime::UNIX_EPOCH + d),
+    )
+}
